@@ -524,6 +524,9 @@ func runC14(c *Ctx) {
 		c.MinInstances("C14.R12 no-stale-index-lookup", nLook, 3)
 	}
 
+	// ---- U1 fee / nonce arithmetic on unsigned integers never wraps into a comparison
+	checkUnsignedDifferences(c, "C14.U1 unsigned-difference-guarded", func(fn *ssa.Function) bool { return strings.HasPrefix(FuncKey(fn), "pkg/txpool.") }, c14UnsignedTable, 0)
+
 	// ---- R11 heap orderings
 	for _, x := range []struct{ key, want string }{
 		{"pkg/txpool.(NonceMinHeap).Less", "<"},
@@ -622,3 +625,5 @@ func edgeDominatesAny(e Edge, fn *ssa.Function, sub string) bool {
 	}
 	return false
 }
+
+var c14UnsignedTable = []unsignedRow{}
